@@ -35,8 +35,9 @@ def check(tier, seed):
         cases = []
         groups = [0, 1, 6, 0x31, 255] + [rng.randrange(256) for _ in range(3 if tier == 'quick' else 40)]
         items = [0, 1, 0x2D, 0x3FF, 0x400, 0x7FF, 0x800, 0xFFF] + [rng.randrange(4096) for _ in range(3 if tier == 'quick' else 40)]
-        for g in groups:
-            for i in items:
+        pairs = [(g, i) for g in groups for i in items] + [((k >> 16) & 255, k & 4095) for k in kt['signed']] + [(6, 0x2D), (6, 0x30)]
+        for g, i in pairs:
+            if True:
                 for bits in K.BITS:
                     for signed in (False, True):
                         for v in K.boundary_values(bits, signed) + ([rng.randrange(1 << (bits - 1))] if bits > 1 else []):
@@ -64,16 +65,22 @@ def check(tier, seed):
                                                       f'c13-rt|{g}|{i}|{bits}|{signed}|{v!r}')
         # published keys + random keys with zero reserved bits
         keys = sorted(kt['consts'].values())
+        # neighbourhood of every published key: other size codes, adjacent item/group, reserved bits set
+        for k0 in sorted(kt['consts'].values()):
+            for size in range(1, 6):
+                keys.append((k0 & ~(7 << 28)) | (size << 28))
+            keys += [k0 ^ 1, k0 ^ (1 << 16), k0 | (1 << 31), k0 | (1 << 12), k0 | (1 << 24)]
         for _ in range(100 if tier == 'quick' else 5000):
             size = rng.randrange(1, 6)
             keys.append((size << 28) | (rng.randrange(256) << 16) | rng.randrange(4096))
         for key in keys:
             bits = [0, 1, 8, 16, 32, 64, 0, 0][(key >> 28) & 7]
-            for v in ([True, False] if bits == 1 else [0, 1, (1 << (bits - 1)) - 1, -1]):
+            for v in ([True, False] if bits == 1 else [0, 1, (1 << (bits - 1)) - 1, -1, (1 << bits) - 1]):
                 impl = C.guarded(K.impl_fromkey, key, v)
                 cases.append(Case('cfg-from-key', f'cfromkey {sk} {key} {K.cval_token(v)}', impl, {'key': hex(key), 'value': repr(v)}, kind='fromkey'))
                 toks = impl.split(' ')
-                if len(toks) == 2 and not toks[1].startswith('!') and bytes.fromhex(toks[1])[:4] != key.to_bytes(4, 'little'):
+                reserved = key & ((1 << 31) | (0xF << 24) | (0xF << 12))
+                if len(toks) == 2 and not toks[1].startswith('!') and not reserved and bytes.fromhex(toks[1])[:4] != key.to_bytes(4, 'little'):
                     res.violation('item built from a key does not encode to that key id', {'property': 'C13', 'input': {'key': hex(key), 'value': repr(v)}, 'packed': toks[1]}, f'c13-key|{key}')
         if tier == 'thorough':
             # all (group, item, size) headers: key id of the packed bytes
